@@ -226,11 +226,11 @@ Definition ereplace_ready (o : aop) (T : rtree) : Prop :=
   end.
 
 Theorem op_step_tree_all o T T' st :
-  operands_new_all o = true -> ereplace_ready o T -> holds st T -> t_op o T = Ok T' ->
+  operands_new_all o = true -> is_node T = true -> ereplace_ready o T -> holds st T -> t_op o T = Ok T' ->
   exists st', run_ops fixed (compile o) st = Ok st' /\ holds st' T'.
 Proof.
-  intros Hn Hready Hst Ht.
-  destruct o; try (apply (op_step_tree _ T T' st); [exact Hn|exact Hst|exact Ht]).
+  intros Hn HnT Hready Hst Ht.
+  destruct o; try (apply (op_step_tree _ T T' st); [exact Hn|exact HnT|exact Hst|exact Ht]).
   cbn [operands_new_all ereplace_ready] in *.
   destruct Hst as (ts & tid & ri & a & b & c & d & -> & HT). cbn [t_op] in Ht.
   destruct (rel_pos T i j) as [[ci cj]|] eqn:Ep; [|destruct (entry_pos T i); discriminate]. injection Ht as <-.
